@@ -141,7 +141,7 @@ Print Assumptions C07_wakeups_cover_limit_partial.
 Example C07_no_lost_wakeup_partial_example :
   let c := {| limit := 1; lph := 0; force_close := false |} in
   let tr := [EStart 0 0; ECreateOk 0; EStart 1 0; EStart 2 1; EStart 3 0; ERelease 0 true [1; 0];
-             ECancel 2; EStart 4 1; EResume 2 [0; 1]; EResume 1 []] in
+             ECancel 2; EStart 4 1; EResume 2 [0; 1]] in
   exists s, run c init tr = Some s /\ closed s = false /\ woken s = [] /\
             waiters s = [(1, 0, false); (3, 0, false)] /\ length (acquired s) = 1%nat.
 Proof. eexists. vm_compute. repeat split; reflexivity. Qed.
